@@ -188,6 +188,8 @@ def run(chk):
     ep3 = np.concatenate([ep, np.zeros(pad, np.int64)]).reshape(-1, 3)
     ev3 = np.concatenate([evl, np.full(pad, -2048, np.int64)]).reshape(-1, 3)
     nrun = check_rv(chk, w3, ep3, ev3, 'tlc')
+    # no particles: every output-selection mode gives (0, 3) arrays / zero counts
+    nrun += check_rv(chk, w3[:0], ep3[:0], ev3[:0], 'empty')
     packed = np.array([limbs_to_u64(c['aux']) for c in cases['aux']], dtype=np.uint64)
     e = cases['aux']
     exp = (np.array([c['exp']['x'] for c in e]), np.array([c['exp']['y'] for c in e]), np.array([c['exp']['z'] for c in e]),
